@@ -101,7 +101,7 @@ func init() {
 			return nil, err
 		}
 		n := int(confWorlds.Add(1))
-		base := 21000 + (os.Getpid()%400)*80
+		base := 21000 + (os.Getpid()%100)*100 // below the ephemeral port range
 		a.Cfg.RfPort, a.Cfg.AbmfPort = base+2*n, base+2*n+1
 		var out confOut
 		done := make(chan struct{})
@@ -116,6 +116,8 @@ func init() {
 				if c, err := net.DialTimeout("tcp", fmt.Sprintf("127.0.0.1:%d", a.Cfg.RfPort), time.Second); err == nil {
 					c.Close()
 					out.TCP = true
+				} else {
+					out.Engine = fmt.Sprintf("no TCP listener on port %d of world %d in process %d: %v", a.Cfg.RfPort, n, os.Getpid(), err)
 				}
 				h := w.ExecOps(a.Supis, a.Ops, 1<<30, false)
 				out.Obs = confObs(h, w.Snapshot(false))
